@@ -61,6 +61,9 @@ static uint64_t mix(uint64_t h, uint64_t x) { return (h ^ x) * 1099511628211ULL;
  * is scripted.  k > 0: accept at most k bytes; 0: return 0; -1: fail with EIO; -2: fail with EINTR.
  * What the "kernel" accepted is really stored in the file and is the accepted stream (acc). */
 static int sys_mode;            /* 0 none, 1 fd, 2 filename, 3 FILE */
+static int sys_kind;            /* what is behind it: 0 regular file, 1 FIFO, 2 /dev/null, 3 pipe, 4 socket */
+static int sys_keep = -1;       /* the other end (reader of the FIFO/pipe, peer socket) */
+#include <sys/socket.h>
 static int sys_fd = -1; static FILE *sys_FILE; static char sys_path[300];
 static long long sysans[MAXANS]; static int nsys, cursys;
 static size_t sys_n, sys_short, sys_eintr; static uint64_t sys_h = 14695981039346656037ULL;
@@ -87,7 +90,8 @@ static long long sys_answer(int fd, const void *buf, size_t len)
 		for (long long i = 0; i < r; i++) { acc_h ^= b[i]; acc_h *= 1099511628211ULL; }
 		acc_len += (size_t)r;
 		if (fd < 0) { if (real_fwrite) real_fwrite(buf, 1, (size_t)r, sys_FILE); }
-		else if (syscall(SYS_write, fd, buf, (size_t)r) != r) r = -1, e = EIO;
+		else if (sys_kind == 0 && syscall(SYS_write, fd, buf, (size_t)r) != r) r = -1, e = EIO;
+		/* non-regular sinks: the scripted call is the device; nothing is forwarded */
 	}
 	errno = e;
 	return r;
@@ -191,12 +195,13 @@ static void tail(void)
 	putchar('\n');
 }
 
+static void c_drop(void);
 static void c_begin(void)
 {
 	a = NULL; nans = curans = 0; opener_ret = 0; freed = 0; leaked = 0; mem_mode = 0; mem_block = NULL; mem_used = 0;
 	acc_h = 14695981039346656037ULL; acc_len = 0; ev_reset();
 	is_raw = has_filter = ever_bad = 0; rawlen = 0;
-	sys_mode = 0; sys_fd = -1; sys_FILE = NULL; nsys = cursys = 0; sys_n = sys_short = sys_eintr = 0; sys_h = 14695981039346656037ULL;
+	sys_mode = 0; sys_kind = 0; sys_keep = -1; sys_fd = -1; sys_FILE = NULL; nsys = cursys = 0; sys_n = sys_short = sys_eintr = 0; sys_h = 14695981039346656037ULL;
 }
 
 static unsigned filetype_of(const char *s)
@@ -224,7 +229,9 @@ static void c_op(char *line)
 	ev_reset();
 	scribble();
 	if (n == 1 && !strcmp(w[0], "new")) {
-		if (a) archive_write_free(a);
+		/* a case may hold several archives one after the other: everything starts afresh */
+		int lk = leaked;
+		c_drop(); c_begin(); leaked = lk;
 		a = archive_write_new(); freed = 0;
 		printf("ok\n");
 	} else if (n >= 1 && !strcmp(w[0], "script")) {
@@ -295,17 +302,33 @@ static void c_op(char *line)
 			else { printf("bad-op\n"); return; }
 		}
 		printf("ok\n");
-	} else if (n == 1 && (!strcmp(w[0], "openfd") || !strcmp(w[0], "openfile") || !strcmp(w[0], "openFILE"))) {
-		/* a regular temporary file; the write(2)/fwrite underneath is scripted */
+	} else if ((n == 1 || n == 2) && (!strcmp(w[0], "openfd") || !strcmp(w[0], "openfile") || !strcmp(w[0], "openFILE"))) {
+		/* the library's own sinks over a scripted write(2)/fwrite; behind them a regular temporary
+		 * file, a FIFO, /dev/null, a pipe or a socket (the last-block default depends on which) */
+		const char *kind = n == 2 ? w[1] : "reg";
 		const char *td = getenv("TMPDIR");
+		int fd = -1, r, sv[2];
 		snprintf(sys_path, sizeof sys_path, "%s/verif_cw_XXXXXX", td && *td ? td : "/tmp");
-		int fd = mkstemp(sys_path);
-		int r;
+		sys_kind = 0;
+		if (!strcmp(kind, "reg")) fd = mkstemp(sys_path);
+		else if (!strcmp(kind, "fifo")) {
+			sys_kind = 1; fd = mkstemp(sys_path); if (fd >= 0) { close(fd); unlink(sys_path); }
+			if (fd < 0 || mkfifo(sys_path, 0600) != 0) { printf("bad-op\n"); return; }
+			sys_keep = open(sys_path, O_RDWR | O_NONBLOCK);       /* a reader, so that opening for writing does not block */
+			fd = open(sys_path, O_WRONLY | O_NONBLOCK);
+		} else if (!strcmp(kind, "null")) { sys_kind = 2; snprintf(sys_path, sizeof sys_path, "/dev/null"); fd = open("/dev/null", O_WRONLY); }
+		else if (!strcmp(kind, "pipe")) { sys_kind = 3; if (pipe(sv) == 0) { sys_keep = sv[0]; fd = sv[1]; } }
+		else if (!strcmp(kind, "sock")) { sys_kind = 4; if (socketpair(AF_UNIX, SOCK_STREAM, 0, sv) == 0) { sys_keep = sv[0]; fd = sv[1]; } }
 		if (fd < 0) { printf("bad-op\n"); return; }
 		scribble();
-		if (!strcmp(w[0], "openfd")) { sys_mode = 1; sys_fd = fd; unlink(sys_path); r = archive_write_open_fd(a, fd); }
-		else if (!strcmp(w[0], "openfile")) { close(fd); sys_mode = 2; r = archive_write_open_filename(a, sys_path); }
-		else { sys_mode = 3; sys_fd = fd; sys_FILE = fdopen(fd, "w+"); unlink(sys_path); r = archive_write_open_FILE(a, sys_FILE); }
+		if (!strcmp(w[0], "openfd")) { sys_mode = 1; sys_fd = fd; if (sys_kind <= 1) unlink(sys_path); r = archive_write_open_fd(a, fd); }
+		else if (!strcmp(w[0], "openfile")) {
+			if (sys_kind > 2) { close(fd); printf("bad-op\n"); return; }
+			close(fd); sys_mode = 2; r = archive_write_open_filename(a, sys_path);
+		} else {
+			if (sys_kind != 0) { close(fd); printf("bad-op\n"); return; }
+			sys_mode = 3; sys_fd = fd; sys_FILE = fdopen(fd, "w+"); unlink(sys_path); r = archive_write_open_FILE(a, sys_FILE);
+		}
 		struct archive_write *aw = (struct archive_write *)a;
 		if (aw->client_writer != NULL && aw->client_writer != mem_wrap_cb) { orig_writer = aw->client_writer; aw->client_writer = mem_wrap_cb; }
 		printf("open %s", vh_st(r)); tail();
@@ -372,7 +395,7 @@ static void c_op(char *line)
 		scribble();
 		int r = archive_write_free(a); freed = 1;
 		printf("free %s", vh_st(r));
-		if (sys_mode) {
+		if (sys_mode && sys_kind == 0) {
 			/* what is in the file is what the scripted system call accepted */
 			int fd = sys_mode == 2 ? open(sys_path, O_RDONLY) : sys_fd;
 			if (sys_mode == 3) fflush(sys_FILE);
@@ -385,12 +408,21 @@ static void c_op(char *line)
 	} else printf("bad-op\n");
 }
 
-static void c_end(void)
+/* drop the current archive and everything the harness holds for it */
+static void c_drop(void)
 {
 	if (a && !freed) archive_write_free(a);
+	a = NULL;
 	if (sys_mode == 3 && sys_FILE) fclose(sys_FILE); else if (sys_mode == 1 && sys_fd >= 0) close(sys_fd);
-	if (sys_mode == 2) unlink(sys_path);
-	free(mem_block); free(ev_sz); ev_sz = NULL; ev_cap = 0; free(rawbuf); rawbuf = NULL; rawcap = 0;
+	if (sys_mode == 2 && sys_kind <= 1) unlink(sys_path);
+	if (sys_keep >= 0) { close(sys_keep); sys_keep = -1; }
+	free(mem_block); mem_block = NULL;
+}
+
+static void c_end(void)
+{
+	c_drop();
+	free(ev_sz); ev_sz = NULL; ev_cap = 0; free(rawbuf); rawbuf = NULL; rawcap = 0;
 	if (leaked && !vh_nofork) { fflush(stdout); _exit(0); }
 }
 
